@@ -634,15 +634,22 @@ class Array(metaclass=MetaArray):
             ll = len(value)
             shape = get_shape_from_array(value, len(self._shape))
             fits = tuple(shape) == tuple(self._shape)
-        if fits and (self._is_static_type or is_integer(value)):
+        if fits and (
+            is_integer(value) or hasattr(self._itemtype, "_dtype")
+        ):
             self.__class__._to_buffer(self._buffer, self._offset, value)
         elif fits:
             # every item keeps the space it got at creation: update in place
             # and leave the array untouched if one of the items is refused
             backup = self._buffer.to_bytearray(self._offset, self._get_size())
             try:
-                for idx in self._iter_index():
-                    self[idx] = get_item(value, idx)
+                if self._is_static_type:
+                    self.__class__._to_buffer(
+                        self._buffer, self._offset, value
+                    )
+                else:
+                    for idx in self._iter_index():
+                        self[idx] = get_item(value, idx)
             except Exception:
                 self._buffer.update_from_buffer(self._offset, backup)
                 raise
